@@ -59,6 +59,45 @@ class Site:
         return "%s:%d" % (self.file, self.line)
 
 
+def fingerprint(site):
+    """name-independent description of what a site computes on: kinds / types / callees of the leaves of its operands.
+    Used to recognise a tabled site after its function (or a field) was renamed."""
+    from . import flow as F
+    fn = site.fn
+    ops = []
+    if site.extra.get("ops"):
+        ops = list(site.extra["ops"])
+    elif site.call is not None:
+        ops = list(site.call.args)
+    elif site.stmt is not None and site.stmt["rv"]["k"] == "cast":
+        ops = [site.stmt["rv"]["op"]]
+    elif site.term is not None and site.term.get("ops"):
+        ops = [o for o in site.term["ops"] if isinstance(o, dict)]
+    out = set()
+    for op in ops:
+        if not isinstance(op, dict) or "k" not in op:
+            continue
+        if op["k"] == "const":
+            out.add("const")
+            continue
+        for o in F.origins(fn, op, depth=8):
+            if o.kind == "arg":
+                fl = [e for e in (o.place["p"] if o.place else []) if isinstance(e, dict) and "f" in e]
+                out.add("field:" + fl[-1].get("ty", "?") if fl else "arg:" + fn.local_ty(o.arg))
+            elif o.kind == "place":
+                fl = [e for e in (o.place["p"] if o.place else []) if isinstance(e, dict) and "f" in e]
+                out.add("field:" + fl[-1].get("ty", "?") if fl else "local")
+            elif o.kind == "call":
+                out.add("call:" + short(o.call.name))
+            elif o.kind == "const":
+                out.add("const")
+            elif o.kind in ("cast", "binop", "unop"):
+                out.add("%s:%s" % (o.kind, o.extra))
+            else:
+                out.add(o.kind)
+    return sorted(out)
+
+
 def operand_desc(fn, op):
     if op["k"] == "const":
         return "const(%s)" % op["v"]
